@@ -1,112 +1,198 @@
-"""Property -> rules mapping."""
+"""Property -> rules mapping (what bin/check <id> runs) with the explanation / assumptions written into the evidence."""
 from .rules import attrs, cfg, conv, dbg, det, errsel, fmtdec, fmtparse, hdr, hyg, idx, ops, panics, rawid, shape, split
 
 PROPS = {}
 
+COMMON = [
+    "static analysis only: the sources of /repo are parsed (syn) and type-checked (rustc MIR) on this run; no derive is expanded or executed by the check",
+    "a template (quote!/parse_quote! site) is the universal expansion of every input that reaches it; rules over templates and over the decision code around them hold for all inputs",
+]
+NOT_DECIDED_VALUES = "NOT decided (left to dynamic techniques): the bytes / values produced at run time for particular inputs; only the structural necessary conditions named by the rules"
 
-def prop(pid, quick, thorough=(), level="other", meta=None):
-    PROPS[pid] = {"quick": list(quick), "thorough": list(thorough), "level": level, "meta": meta or {}}
 
-
-prop(
-    "C15",
-    [hyg.rule_tpl_hyg, hyg.rule_tpl_meth, hyg.rule_tpl_export],
-    meta={
-        "explanation": "Every quote!/parse_quote! template of impl/src is the universal expansion for all inputs reaching it; "
-        "name resolution of a template token depends only on the token sequence, so scanning the 247 templates decides hygiene for every derive input.",
-        "assumptions": [
-            "tokens spliced from the user's item (#ident, #ty, attribute expressions) are the user's own and may name anything",
-            "Rust name resolution: a path root preceded by `::`/`.`/`'` is not looked up in the caller's scope; `derive_more` is the extern-prelude crate name",
-        ],
-    },
-)
+def prop(pid, quick, thorough=(), level="other", explanation="", assumptions=(), **meta):
+    m = {"explanation": explanation, "assumptions": COMMON + list(assumptions)}
+    m.update(meta)
+    PROPS[pid] = {"quick": list(quick), "thorough": list(thorough), "level": level, "meta": m}
 
 
 prop(
     "C01",
-    [hdr.rule_tpl_hdr, hdr.rule_tpl_lint, hdr.rule_tpl_selfassoc],
-    meta={
-        "explanation": "Structural necessary conditions of 'every supported input expands to code that compiles warning-free', decided on the templates "
-        "(universal expansions) with interpolations typed by rustc (MIR var_debug_info join).",
-        "assumptions": [
-            "NOT decided: that every well-typed input type-checks after expansion (trait solving over arbitrary field types); only header/generics/lint necessary conditions",
-            "deprecated-lint behaviour inside derive expansions (fires for paths to deprecated variants, not for field access) as observed on the installed toolchains",
-        ],
-    },
+    [hdr.rule_tpl_hdr, hdr.rule_tpl_lint, hdr.rule_tpl_selfassoc, rawid.rule_raw_id, shape.rule_tpl_prec],
+    explanation="Structural necessary conditions of 'every supported input expands to code that compiles warning-free': the 27 generated impl headers and every TypeGenerics splice "
+    "(interpolations typed by rustc through the MIR binding join, identifier provenance by def-use), lint attributes on impls that name user variants, no Self::<Assoc> in enum-capable expanders, raw identifiers, "
+    "spliced user expressions.",
+    assumptions=[
+        "NOT decided: that every well-typed input type-checks after expansion (trait solving over arbitrary field types)",
+        "deprecated-lint behaviour inside derive expansions (fires for paths to deprecated variants, not for field access; unreachable_code never fires for uninhabited fields) as observed with witnesses on both installed toolchains",
+    ],
 )
 
+prop(
+    "C02",
+    [fmtdec.rule_tpl_verb, fmtdec.rule_binder_align, fmtdec.rule_pointer_deref, fmtdec.rule_rename_all],
+    explanation="With an attribute the expansion *is* a write!/format_args! call, so 'prints what format! prints' reduces to: the attribute's tokens reach the macro verbatim and in order, fields are bound under "
+    "the names the literal may use (`ident` / `_i`, same field), Pointer placeholders get the field itself, and the implicit body (unit name with rename_all, single-field delegation) is built as documented.",
+    assumptions=["Rust's own semantics of format_args! (trusted)", NOT_DECIDED_VALUES],
+)
+
+prop(
+    "C03",
+    [fmtparse.rule_peg_combinators, fmtparse.rule_peg_tables, fmtparse.rule_fmt_counter, fmtparse.rule_peg_equiv, fmtdec.rule_transparent_call],
+    level="model_checking",
+    explanation="A PEG is extracted from the combinator source of impl/src/fmt/parsing.rs on every run (fail-closed on any construct it does not understand) and compared, by table rules and by bounded "
+    "exhaustive equivalence, with std::fmt's documented grammar (read from the toolchain's alloc/src/fmt.rs) as rustc_parse_format disambiguates it; the implicit-argument counter of the consumer is checked "
+    "structurally. The model is derived from source; no code of the crate runs.",
+    assumptions=[
+        "extraction fidelity: the combinators keep the std Option/Iterator semantics checked by G-COMB",
+        "the reference reading of std's grammar (fill/align by one-character look-ahead, `0$`, `.*`, identifier = XID) follows rustc_parse_format; python's str.isidentifier approximates XID_Start/XID_Continue",
+        "a literal std rejects still reaches format_args! unchanged (TPL-VERB, C02) unless the transparent path is taken (rule_transparent_call)",
+    ],
+)
+
+prop(
+    "C04",
+    [fmtdec.rule_guard_use, fmtdec.rule_traversal, fmtdec.rule_lookup_agreement, fmtdec.rule_shared_decision, fmtparse.rule_fmt_counter, fmtparse.rule_peg_tables],
+    explanation="Bounds are emitted by six templates `#ty: core::fmt::#Trait`; each must be guarded by contains_generics on the same binding; contains_generics must traverse every variant / type-bearing field of "
+    "syn::Type, PathArguments and GenericArgument (read from the syn sources the crate builds against); the placeholder->field lookup agrees with its sibling and with the binder names; body and bounds take the same decisions.",
+    assumptions=["NOT decided: that bounded_types is a complete algorithm for arbitrary literals beyond these necessary conditions", NOT_DECIDED_VALUES],
+)
+
+prop(
+    "C05",
+    [fmtdec.rule_dec_cover, fmtdec.rule_transparent_call, fmtdec.rule_transparent_siblings, split.rule_split_table],
+    explanation="FmtAttribute::transparent_call is the decision function for flag pass-through: every FormatSpec field must veto transparency, exactly one placeholder, the positional index must denote the single argument, "
+    "and each site emitting an attribute body must ask it first and fall back to write! unconditionally. Argument counting depends on the argument scanner (C16 findings are repeated here).",
+    assumptions=["format_args!/write! ignore the outer formatter's flags (Rust semantics)", NOT_DECIDED_VALUES],
+)
+
+prop(
+    "C06",
+    [dbg.rule_builder_shape, dbg.rule_debug_tuple_sibling, rawid.rule_raw_id],
+    explanation="Without attributes generate_body must drive std's own builders like #[derive(Debug)] does (shape rules), names are rendered un-raw (RAW-ID over rustc-resolved Ident->text conversions), and the crate's copy of "
+    "core::fmt::DebugTuple must have the same effect skeleton as the toolchain's core/src/fmt/builders.rs (sibling comparison, method by method).",
+    assumptions=["std's #[derive(Debug)] expands to debug_struct/debug_tuple/write_str calls with un-raw names (rustc's builtin derive)", NOT_DECIDED_VALUES],
+)
+
+prop(
+    "C07",
+    [fmtdec.rule_shared_reject, fmtdec.rule_shared_decision, fmtdec.rule_lookup_agreement],
+    explanation="Compile-time clauses: the `_variant` rejection precedes arm generation and tests modifiers OR non-Display; Debug rejects an enum-level format; `_variant` detection resolves names like bounded_types does; "
+    "body and bounds share the wrap/default decision of shared_attr_info; the wrapping template binds `_variant` with the fields in scope; rename_all applies before the wrap split.",
+    assumptions=["NOT decided: the full three-way decision (shared attribute x own attribute x field count) as a truth table, and every printed text", NOT_DECIDED_VALUES],
+)
+
+prop(
+    "C08",
+    [conv.rule_merge_symmetry, conv.rule_from_table, conv.rule_field_order],
+    explanation="Field order and the impl set are decided in a few places: expand_fields/(i, field) pairing and the per-field templates (exactly one From::from), the `match (attrs, skip_variant)` table with a complete first pass for "
+    "has_explicit_from, Into's (index, field, skip) triples and reference-kind table, Constructor's single field list, and the field-by-field symmetry of attribute merging.",
+    assumptions=[NOT_DECIDED_VALUES, "coherence of the generated impls with user impls is rustc's business"],
+)
+
+prop(
+    "C09",
+    [idx.rule_idx_space, errsel.rule_view_defs, errsel.rule_error_selection],
+    explanation="Index-space typing: collections over all fields vs. enabled fields are derived from utils::State; the positions stored in ParsedFields come from an enumerate over enabled fields; every subscript and every "
+    "`matcher` argument must use an index of the collection's own space. Plus the documented selection table of parse_field_impl / defaults / ignored variants.",
+    assumptions=[NOT_DECIDED_VALUES],
+)
+
+prop(
+    "C10",
+    [ops.rule_tpl_role, ops.rule_unary, ops.rule_method_names],
+    explanation="Operand roles are visible in the operator templates: receiver rooted in the left operand, argument in the right, same field/variant on both sides, `(self, rhs)` scrutinee, unit/mismatch arms; unary wrapping governed by one flag; "
+    "method names derived from trait names are constant-evaluated and compared with core's trait declarations; Sum/Product fold from the field-wise empty value.",
+    assumptions=[NOT_DECIDED_VALUES],
+)
+
+prop(
+    "C11",
+    [shape.rule_accessors, errsel.rule_view_defs, idx.rule_idx_space, rawid.rule_raw_id],
+    explanation="Accessor methods, patterns, binders and error values are built per variant from one source; the failure re-match covers all variants; TryInto patterns go through matcher(field_indexes, binders) (IDX-SPACE, VIEW-DEF); "
+    "method names are built from un-raw variant names.",
+    assumptions=["snake_case conversion is delegated to convert_case (not analysed)", NOT_DECIDED_VALUES],
+)
+
+prop(
+    "C12",
+    [shape.rule_tpl_prec, shape.rule_discriminants, hdr.rule_tpl_hdr, rawid.rule_raw_id],
+    explanation="The discriminant reconstruction is a counter discipline in one closure plus one template: reset/advance/use order, parenthesised explicit expression, typed constants named injectively, match through the constants only; "
+    "repr detection table and merge; the impl header carries the enum's generics.",
+    assumptions=["the compiler assigns implicit discriminants as previous + 1 (language semantics)", NOT_DECIDED_VALUES],
+)
+
+prop(
+    "C13",
+    [shape.rule_from_str, rawid.rule_raw_id, hdr.rule_tpl_hdr],
+    explanation="Enum FromStr: same case mapping on keys (expansion time) and scrutinee (run time), guard structure of case-colliding groups, fall-through error, field-less variants only; newtype delegation and error type.",
+    assumptions=["str::to_lowercase is deterministic and identical at expansion and run time", NOT_DECIDED_VALUES],
+)
+
+prop(
+    "C14",
+    [shape.rule_delegation, errsel.rule_view_defs, idx.rule_idx_space],
+    explanation="Delegating derives use element 0 of the enabled views (VIEW-DEF keeps positional names original), direct forms `&[mut] self.member`, forwarded forms through one cast with projected associated types, "
+    "RefType tables pairwise consistent, AsRef kind decision and the autoref-specialisation levels of src/as.rs vs. the call site.",
+    assumptions=["autoref-based specialisation: method probing prefers the receiver with fewer auto-refs (language semantics)", NOT_DECIDED_VALUES],
+)
+
+prop(
+    "C15",
+    [hyg.rule_tpl_hyg, hyg.rule_tpl_meth, hyg.rule_tpl_export, cfg.rule_cfg_export],
+    explanation="Name resolution of a template token depends only on the token sequence: every path root / macro name / trait-method call of the 247 templates is classified; every derive_more:: path has a backing export "
+    "under the features that compile the emitting code.",
+    assumptions=[
+        "tokens spliced from the user's item (#ident, #ty, attribute expressions) are the user's own and may name anything",
+        "`str::to_lowercase` needing `alloc` in a no_std user crate is noted, not analysed",
+    ],
+)
+
+prop(
+    "C16",
+    [split.rule_split_table, split.rule_alias_test, fmtdec.rule_tpl_verb],
+    explanation="The argument scanner is a four-alternative token matcher; its alternatives are compared with the places where Rust's expression grammar keeps a comma inside an expression (table compiled from syn), "
+    "the alias test is checked against `==` and spacing, termination/failure of the helper loops, verbatim re-emission (TPL-VERB).",
+    assumptions=["agreement on *all* expressions is undecidable for a hand scanner; the table is the claim", "`->` inside `::<..>` and `|=` are residual exotic hazards listed in DESIGN.md, not decided"],
+)
+
+prop(
+    "C17",
+    [attrs.rule_legacy_attr_parser, attrs.rule_typed_attrs, attrs.rule_attr_positions, conv.rule_merge_symmetry],
+    explanation="Attribute totality: the untyped parser's checks dominate every successful return, its name matches end in rejecting arms, slots are written once; typed attributes reject repetition unless merging is documented "
+    "(merge overrides enumerated, symmetric), synonyms are accepted alike and not branched on, legacy syntax is detected on every path, positional conflicts raise their diagnostics.",
+    assumptions=["NOT decided: token-equality of expansions for synonymous inputs (follows from the parsers producing the same value; not proved), diagnostics' wording"],
+)
+
+prop(
+    "C18",
+    [panics.rule_panic_ledger, panics.rule_closed_sets, panics.rule_termination, fmtparse.rule_peg_combinators, fmtparse.rule_peg_tables, fmtdec.rule_traversal, split.rule_scanner_progress, idx.rule_idx_space, rawid.rule_raw_id],
+    explanation="Every panic-capable site rustc sees in the crate (all features) is matched against a ledger: diagnostic, input-guaranteed, guarded (the guard is re-recognised from the conditions holding at the site on this run) or audited with a reason; "
+    "closed sets behind unimplemented!/unreachable! are re-derived from the create_derive! table and the syn sources; recursive SCCs of the resolved call graph need a termination argument; parser loops progress.",
+    assumptions=["panics inside syn / quote / proc-macro2 for token streams the compiler never produces are out of scope", "stack depth as a number is not bounded, only recursion on strict sub-terms"],
+)
 
 prop(
     "C19",
     [det.rule_det_hasher, det.rule_det_ambient, det.rule_det_state],
-    meta={
-        "explanation": "Determinism decided on the type-checked program: rustc's own MIR of derive_more-impl (all features) is searched for every hashed-collection "
-        "instantiation, every resolved call and every static; nothing is executed.",
-        "assumptions": [
-            "syn, quote, proc-macro2, convert_case, unicode-xid are pure (their MIR is not analysed)",
-            "DefaultHasher::default() is a fixed function within one toolchain",
-            "cfg(test) code is excluded (cargo check of the lib target)",
-        ],
-    },
+    explanation="Determinism decided on the type-checked program: rustc's own MIR of derive_more-impl (all features) is searched for every hashed-collection instantiation, every resolved call and every static; nothing is executed.",
+    assumptions=[
+        "syn, quote, proc-macro2, convert_case, unicode-xid are pure (their MIR is not analysed)",
+        "DefaultHasher::default() is a fixed function within one toolchain",
+        "cfg(test) code is excluded (cargo check of the lib target)",
+    ],
 )
-
 
 prop(
     "C20",
     [cfg.rule_cfg_manifest, cfg.rule_cfg_export, cfg.rule_cfg_matrix],
     level="proof",
-    meta={
-        "explanation": "cfg algebra over all feature assignments (obligation = gate of the code that emits/uses a name implies the gate of its definition, discharged by "
-        "exhaustive evaluation over the features mentioned) plus rustc's own type-check of every single-feature configuration with and without std.",
-        "checker_cmd": "bin/check C20",
-        "trusted_base": ["syn 2.0.119 parser", "cargo/rustc type-check of each configuration", "python cfg evaluator (exhaustive truth tables)"],
-        "assumptions": [
-            "NOT decided: that the derive's test program *passes* at run time in each configuration, only that it type-checks (thorough tier: --tests)",
-            "flags other than features (docsrs, ci, nightly) are free variables",
-        ],
-    },
+    explanation="cfg algebra over all feature assignments (obligation = gate of the code that emits/uses a name implies the gate of its definition, discharged by exhaustive evaluation over the features mentioned) "
+    "plus rustc's own type-check of every single-feature configuration with and without std (thorough: all pairs and each derive's test program with --tests).",
+    assumptions=[
+        "NOT decided: that the derive's test program *passes* at run time in each configuration, only that it type-checks (thorough tier: --tests)",
+        "flags other than features (docsrs, ci, nightly) are free variables",
+    ],
+    checker_cmd="bin/check C20",
+    trusted_base=["syn 2.0.119 parser", "cargo/rustc type-check of each configuration", "python cfg evaluator (exhaustive truth tables)"],
 )
-
-
-prop("C06", [dbg.rule_builder_shape, dbg.rule_debug_tuple_sibling, rawid.rule_raw_id], meta={"explanation": "wip"})
-
-
-prop(
-    "C03",
-    [fmtparse.rule_peg_combinators, fmtparse.rule_peg_tables, fmtparse.rule_fmt_counter, fmtparse.rule_peg_equiv],
-    level="model_checking",
-    meta={
-        "explanation": "A PEG is extracted from the combinator source of impl/src/fmt/parsing.rs on every run (fail-closed on any construct it does not understand) and compared, "
-        "by table rules and by bounded exhaustive equivalence, with std::fmt's documented grammar (read from the toolchain's alloc/src/fmt.rs) as rustc_parse_format disambiguates it. "
-        "The model is derived from source; no code of the crate runs.",
-        "assumptions": [
-            "extraction fidelity: the combinators keep the std Option/Iterator semantics checked by G-COMB",
-            "reference reading of std's grammar (fill/align by one-character look-ahead, `0$`, `.*`) follows rustc_parse_format; validated against rustc by format_args! witnesses",
-            "a literal std rejects still reaches format_args! unchanged (TPL-VERB, C02) unless the transparent path is taken (C05)",
-        ],
-    },
-)
-
-
-prop("C05", [fmtdec.rule_dec_cover, fmtdec.rule_transparent_call, fmtdec.rule_transparent_siblings], meta={"explanation": "wip"})
-prop("C02", [fmtdec.rule_tpl_verb, fmtdec.rule_binder_align, fmtdec.rule_pointer_deref, fmtdec.rule_rename_all], meta={"explanation": "wip"})
-
-prop("C04", [fmtdec.rule_guard_use, fmtdec.rule_traversal, fmtdec.rule_lookup_agreement], meta={"explanation": "wip"})
-prop("C07", [fmtdec.rule_shared_reject, fmtdec.rule_shared_decision, fmtdec.rule_lookup_agreement], meta={"explanation": "wip"})
-
-prop("C09", [idx.rule_idx_space, errsel.rule_view_defs, errsel.rule_error_selection], meta={"explanation": "wip"})
-
-prop("C10", [ops.rule_tpl_role, ops.rule_unary, ops.rule_method_names], meta={"explanation": "wip"})
-
-prop("C08", [conv.rule_merge_symmetry, conv.rule_from_table, conv.rule_field_order], meta={"explanation": "wip"})
-
-prop("C11", [shape.rule_accessors, errsel.rule_view_defs, idx.rule_idx_space, rawid.rule_raw_id], meta={"explanation": "wip"})
-prop("C12", [shape.rule_tpl_prec, shape.rule_discriminants, hdr.rule_tpl_hdr, rawid.rule_raw_id], meta={"explanation": "wip"})
-prop("C13", [shape.rule_from_str, rawid.rule_raw_id], meta={"explanation": "wip"})
-prop("C14", [shape.rule_delegation, errsel.rule_view_defs, idx.rule_idx_space], meta={"explanation": "wip"})
-
-prop("C16", [split.rule_split_table, split.rule_alias_test, fmtdec.rule_tpl_verb], meta={"explanation": "wip"})
-
-prop("C17", [attrs.rule_legacy_attr_parser, attrs.rule_typed_attrs, attrs.rule_attr_positions, conv.rule_merge_symmetry], meta={"explanation": "wip"})
-
-prop("C18", [panics.rule_panic_ledger, panics.rule_closed_sets, panics.rule_termination, fmtparse.rule_peg_combinators, fmtparse.rule_peg_tables, fmtdec.rule_traversal, split.rule_scanner_progress, idx.rule_idx_space, rawid.rule_raw_id], meta={"explanation": "wip"})
